@@ -121,6 +121,30 @@ func dhPair(c *mc.Ctx, an string, a []byte, bn string, b []byte) {
 	if !bytes.Equal(salt, sa) {
 		fail(c, "dh", "dh/x-or-p-minus-x", "the shared secret depends on whether the peer sent X or p-X (keys %s, %s)", an, bn)
 	}
+	// the same objects used again (a retry; one parsed peer key serving several
+	// handshakes; a key's own public half): same answers, arguments untouched
+	sa2, _ := uniformdh.Handshake(ka, &wb)
+	sb2, _ := uniformdh.Handshake(kb, &wa)
+	if !bytes.Equal(sa2, sa) || !bytes.Equal(sb2, sa) {
+		fail(c, "dh", "dh/second-use", "a second Handshake with the same key objects (%s, %s) derives a different shared secret than the first", an, bn)
+		return
+	}
+	if wbAfter, _ := wb.Bytes(); !bytes.Equal(wbAfter, pb) {
+		fail(c, "dh", "dh/argument-modified", "Handshake modified the peer public key it was given (key %s)", bn)
+		return
+	}
+	if own, _ := ka.PublicKey.Bytes(); !bytes.Equal(own, pa) {
+		fail(c, "dh", "dh/argument-modified", "Handshake modified its own key pair (key %s)", an)
+		return
+	}
+	if ss, _ := uniformdh.Handshake(kb, &ka.PublicKey); !bytes.Equal(ss, sa) {
+		fail(c, "dh", "dh/second-use", "Handshake with the peer's in-memory public key (not re-parsed) gives a different secret (keys %s, %s)", an, bn)
+		return
+	}
+	if ss, _ := uniformdh.Handshake(kb, &ka.PublicKey); !bytes.Equal(ss, sa) {
+		fail(c, "dh", "dh/second-use", "a second Handshake with the peer's in-memory public key gives a different secret (keys %s, %s)", an, bn)
+		return
+	}
 	c.Observe(an+"/"+bn, fmt.Sprintf("%x", sa[:4]))
 }
 
@@ -319,7 +343,7 @@ func runCase(c *mc.Ctx, k caseT, seed int64, fam string) {
 	if !bytes.Equal(rs.Got, wantRef[:wrote]) || wrote != len(wantRef) {
 		fail(c, "stream", "stream-out/"+fam, "%s: the reference decrypted %d bytes that differ from what the real %s wrote (%d)", what, len(rs.Got), k.role, wrote)
 	}
-	if k.realPad1 >= 0 && len(k.realW) > 0 && total(k.realW) > 0 && rs.PeerPre != k.realPad1+k.realPad2 {
+	if k.realPad1 >= 0 && k.realPad1 <= 4097 && k.realPad2 <= 4097 && len(k.realW) > 0 && total(k.realW) > 0 && rs.PeerPre != k.realPad1+k.realPad2 {
 		fail(c, "spec", "padlen/"+fam, "%s: the real side's paddings were scripted to %d+%d, the reference saw %d bytes in front of the magic", what, k.realPad1, k.realPad2, rs.PeerPre)
 	}
 }
@@ -411,7 +435,9 @@ func scenarios(cfg *mc.Config, emit func(mc.Scenario)) {
 			emit(mc.Scenario{Name: fmt.Sprintf("%s/paddings/pad1=%d", role, p1), Weight: 30, Run: func(c *mc.Ctx) {
 				n := 0
 				for _, p2 := range pads {
-					for _, rp := range [][2]int{{-1, -1}, {0, 0}, {4097, 4097}, {0, 4097}} {
+					// ({4098, 4098}: one beyond the largest residue of each draw, wraps
+					// around to a legal length in correct code)
+					for _, rp := range [][2]int{{-1, -1}, {0, 0}, {4097, 4097}, {0, 4097}, {4098, 4098}} {
 						for si, sc := range scripts {
 							if si != 1 && (rp[0] != -1) {
 								continue
@@ -454,7 +480,9 @@ func scenarios(cfg *mc.Config, emit func(mc.Scenario)) {
 		// segmentation around the magic
 		emit(mc.Scenario{Name: role + "/segmentation", Weight: 80, Run: func(c *mc.Ctx) {
 			n := 0
-			for _, pp := range [][2]int{{0, 0}, {40, 0}, {0, 733}, {300, 300}} {
+			// (the last three: the largest padding a conforming peer may send, and just
+			// below it, with the magic value straddling reads right at the limit)
+			for _, pp := range [][2]int{{0, 0}, {40, 0}, {0, 733}, {300, 300}, {4097, 4097}, {4097, 4066}, {4097, 4065}} {
 				magicAt := 192 + pp[0] + pp[1]
 				chs := map[string]func(*wire.Conn, int, int) []int{"pieces100": pieces(100), "pieces1448": pieces(1448)}
 				if pp[0]+pp[1] <= 40 {
@@ -465,6 +493,13 @@ func scenarios(cfg *mc.Config, emit func(mc.Scenario)) {
 				}
 				for _, d := range []int{1, 191, 192, 193} {
 					chs[fmt.Sprintf("split@%d", d)] = splitAt(d)
+				}
+				if pp[0]+pp[1] > 8000 {
+					// keep the large cases to the splits around the magic
+					delete(chs, "pieces100")
+					for d := 3; d <= 34; d += 2 {
+						delete(chs, fmt.Sprintf("split@magic%+d", d))
+					}
 				}
 				for cn, ch := range chs {
 					for _, coal := range []int{0, 1, 500} {
@@ -616,11 +651,15 @@ func twoConnections(cfg *mc.Config, emit func(mc.Scenario)) {
 			co, so := o4h.Pattern(byte('C'+i), 0, 40), o4h.Pattern(byte('S'+i), 0, 40)
 			eps = append(eps, &ep{role: "client", w: cw, out: co, want: so}, &ep{role: "server", w: sw, out: so, want: co})
 		}
+		// clients first: both client hellos are on the wire before a server
+		// starts, so that one preemption inside a server's key derivation lets
+		// the other server run its whole key derivation in between
+		eps = []*ep{eps[0], eps[2], eps[1], eps[3]}
 		res := sched.Run(c, sched.Options{PreemptKinds: []string{"stmt"}, NoEarlyTimers: true, MaxSteps: 3_000_000}, func() {
 			s := sched.Cur()
 			for i, e := range eps {
 				e := e
-				s.Spawn(fmt.Sprintf("%s%d", e.role, i/2), func() {
+				s.Spawn(fmt.Sprintf("%s%d", e.role, i%2), func() {
 					conn, err := realConn(e.role, e.w)
 					if err != nil {
 						e.err = err
@@ -648,7 +687,7 @@ func twoConnections(cfg *mc.Config, emit func(mc.Scenario)) {
 		}
 		for i, e := range eps {
 			if e.err != nil || !bytes.Equal(e.got, e.want) {
-				fail(c, "stream", "two-connections/stream", "%s of connection %d: read %d/%d bytes (first difference at %d), err=%v, quiescent=%v: concurrent connections influenced each other", e.role, i/2, len(e.got), len(e.want), firstDiff(e.got, e.want), e.err, res.Quiescent)
+				fail(c, "stream", "two-connections/stream", "%s of connection %d: read %d/%d bytes (first difference at %d), err=%v, quiescent=%v: concurrent connections influenced each other", e.role, i%2, len(e.got), len(e.want), firstDiff(e.got, e.want), e.err, res.Quiescent)
 				return
 			}
 		}
